@@ -250,6 +250,8 @@ def run(ck, tier):
     _imp3(ck, 'C03', 'R19', ('R3',), 'a well-formed reply of a conformant server fails the frame check and the caller gets an error object', detail_prefixes=('rtuFrameSize-shape', 'size-from-buffered-length', 'custom-size-override', 'fifo-size', 'mei-size-shape', 'base-size-shape'))
     ck.rule('R20', 'an exchange that ended in a transport fault leaves no open connection behind: the reply that arrives late cannot be read as the answer to the next request (shared with C13 R4)')
     _imp3(ck, 'C13', 'R20', ('R4',), 'the late reply of the abandoned request is the first thing the next transaction reads: the caller is handed the answer to another request', detail_prefixes=('handler-does-not-close',))
+    ck.rule('R21', 'the reply object handed to the caller carries the fields of the reply that was received: decode() of every response class reads the spec layout (shared with C01 R3)')
+    _imp3(ck, 'C01', 'R21', ('R3',), 'the caller is handed a reply whose fields are not the ones the server sent for this request', construct_contains=('Response.decode',))
     return cx.idx
 
 
